@@ -62,6 +62,25 @@ Theorem C13_setattr : forall p, In p setattr_stat_pairs -> forall a param t,
   apply_conv rust_conv_stat_of_setattr a param (snd p) = a (fst p).
 Proof. exact setattr_ok. Qed.
 
+(* the twin entry points: From<stat64> for Attr and From<Entry> for EntryOut *)
+Theorem C13_attr_from_stat : forall p, In p attr_stat_pairs -> forall st param,
+  exists t, field_ity "Attr" (fst p) = Some t /\
+            apply_conv rust_conv_attr_from_stat st param (fst p) = st (snd p) mod 2 ^ bits t.
+Proof. exact attr_from_stat_ok. Qed.
+Theorem C13_attr_from_stat_flags : forall st param,
+  apply_conv rust_conv_attr_from_stat st param "flags" = 0.
+Proof. exact attr_from_stat_flags. Qed.
+Theorem C13_entry_out : forall p, In p entry_out_pairs -> forall e param,
+  exists t, leaf_ity "EntryOut" (fst p) = Some t /\
+            apply_conv rust_conv_entry_out e param (fst p) = e (snd p) mod 2 ^ bits t.
+Proof. exact entry_out_ok. Qed.
+Theorem C13_entry_out_fields_covered : entry_out_fields_covered = true.
+Proof. exact entry_out_covered. Qed.
+Example C13_entry_out_nonvacuous :
+  List.length entry_out_pairs = 22%nat /\ In ("attr.ino", "attr.st_ino") entry_out_pairs /\
+  leaf_ity "EntryOut" "attr.rdev" = Some (4, false) /\ leaf_ity "EntryOut" "entry_valid_nsec" = Some (4, false).
+Proof. vm_compute. intuition. Qed.
+
 (* non-vacuity: the tables are non-empty and the hypotheses are satisfiable *)
 Example C13_nonvacuous :
   List.length struct_pairs = 60%nat /\ List.length attr_stat_pairs = 15%nat /\
@@ -86,3 +105,7 @@ Print Assumptions C13_attr_roundtrip.
 Print Assumptions C13_attr_fields_covered.
 Print Assumptions C13_statfs.
 Print Assumptions C13_setattr.
+Print Assumptions C13_attr_from_stat.
+Print Assumptions C13_attr_from_stat_flags.
+Print Assumptions C13_entry_out.
+Print Assumptions C13_entry_out_fields_covered.
